@@ -24,6 +24,9 @@ pub struct CheckCfg {
     pub det_mod: u64,
     pub det_chunks: usize,
     pub max_shrink: usize,
+    /// Re-run every index in another process under other per-process hash
+    /// keys and compare the labelled outputs (C07).
+    pub cross_env: bool,
     pub extra_assumptions: Vec<String>,
     pub components: Value,
 }
@@ -52,6 +55,8 @@ enum JobKind {
     Main,
     /// A run whose shrinking killed the worker: re-run without shrinking.
     NoShrink,
+    /// Same indices under another env seed (other per-process hash keys).
+    CrossEnv,
     Confirm { index: u64, how: String },
     Determinism,
 }
@@ -73,6 +78,11 @@ pub struct Aggregate {
     pub det_mismatch: Vec<u64>,
     pub worker_restarts: u64,
     pub harness_errors: Vec<String>,
+    pub outputs: BTreeMap<u64, (u64, Vec<(String, u64)>)>,
+    pub cross_pairs: u64,
+    /// label -> (index, env seed a, env seed b)
+    pub cross_mismatch: BTreeMap<String, (u64, u64, u64)>,
+    pub cross_mismatch_count: BTreeMap<String, u64>,
 }
 
 impl Aggregate {
@@ -168,6 +178,7 @@ impl Orchestrator {
             max_shrink: self.cfg.max_shrink,
             soft_deadline_s: deadline,
             samples_wanted: 2,
+            record_outputs: self.cfg.cross_env,
         };
         let path = self.work.join(format!("job{}.json", id));
         std::fs::write(&path, serde_json::to_string(&job).unwrap()).expect("write job");
@@ -198,8 +209,36 @@ impl Orchestrator {
         }
     }
 
-    fn merge(&self, agg: &mut Aggregate, res: JobResult, kind: &JobKind) {
+    fn merge(&self, agg: &mut Aggregate, res: JobResult, kind: &JobKind, env_seed: u64) {
         match kind {
+            JobKind::CrossEnv => {
+                agg.evals += res.evals;
+                for (k, v) in res.violation_counts {
+                    *agg.violation_counts.entry(k).or_insert(0) += v;
+                }
+                for v in res.violations {
+                    agg.violations.entry(v.key.clone()).or_insert(v);
+                }
+                for (idx, outs) in res.outputs {
+                    if let Some((env_a, prim)) = agg.outputs.get(&idx) {
+                        agg.cross_pairs += 1;
+                        let a: BTreeMap<&String, u64> = prim.iter().map(|(k, v)| (k, *v)).collect();
+                        for (label, d) in &outs {
+                            match a.get(label) {
+                                Some(pd) if pd == d => {}
+                                _ => {
+                                    *agg.cross_mismatch_count.entry(label.clone()).or_insert(0) += 1;
+                                    agg.cross_mismatch.entry(label.clone()).or_insert((idx, *env_a, env_seed));
+                                }
+                            }
+                        }
+                        if outs.len() != prim.len() {
+                            *agg.cross_mismatch_count.entry("(set of outputs)".into()).or_insert(0) += 1;
+                            agg.cross_mismatch.entry("(set of outputs)".into()).or_insert((idx, *env_a, env_seed));
+                        }
+                    }
+                }
+            }
             JobKind::Determinism => {
                 for (idx, d) in res.digests {
                     if let Some(prev) = agg.digests.get(&idx) {
@@ -236,6 +275,9 @@ impl Orchestrator {
                     agg.samples.extend(res.samples);
                 }
                 agg.not_run += res.not_run.len() as u64;
+                for (idx, outs) in res.outputs {
+                    agg.outputs.insert(idx, (env_seed, outs));
+                }
             }
         }
     }
@@ -254,6 +296,20 @@ impl Orchestrator {
             queue.push_back(((lo..hi).collect(), self.env_seed_for_chunk(c), JobKind::Main));
         }
         self.run_phase(&mut queue, &mut agg, start);
+
+        if self.cfg.cross_env {
+            let dead: BTreeSet<u64> = agg.aborts_confirmed.iter().map(|a| a.0).collect();
+            for c in 0..n_chunks {
+                let lo = c * chunk;
+                let hi = ((c + 1) * chunk).min(total);
+                let idx: Vec<u64> = (lo..hi).filter(|i| !dead.contains(i) && agg.outputs.contains_key(i)).collect();
+                if !idx.is_empty() {
+                    let other = crate::prng::derive(self.env_seed_for_chunk(c), 0xc055);
+                    queue.push_back((idx, other, JobKind::CrossEnv));
+                }
+            }
+            self.run_phase(&mut queue, &mut agg, Instant::now());
+        }
 
         // Determinism phase: the sampled indices of several chunks are re-run
         // in other processes, in reverse order, under the same env seed, and
@@ -293,13 +349,14 @@ impl Orchestrator {
                     JobKind::Determinism => (1, 0.0),
                     JobKind::Confirm { .. } => (self.cfg.det_mod, 0.0),
                     JobKind::NoShrink => (self.cfg.det_mod, 0.0),
+                    JobKind::CrossEnv => (0, 0.0),
                     JobKind::Main => (
                         self.cfg.det_mod,
                         (self.cfg.soft_deadline_s - start.elapsed().as_secs_f64()).max(1.0),
                     ),
                 };
                 let (mut job, path) = self.make_job(next.0, next.1, digest_mod, deadline);
-                if next.2 == JobKind::NoShrink {
+                if next.2 == JobKind::NoShrink || next.2 == JobKind::CrossEnv {
                     job.max_shrink = 0;
                     std::fs::write(&path, serde_json::to_string(&job).unwrap()).expect("write job");
                 }
@@ -366,7 +423,7 @@ impl Orchestrator {
                         // The isolated re-run survived: the death did not reproduce.
                         agg.aborts_unconfirmed.push((*index, how.clone()));
                     }
-                    self.merge(agg, res, &r.kind);
+                    self.merge(agg, res, &r.kind, r.job.env_seed);
                 }
                 None => agg.harness_errors.push(format!("worker {:?} exited 0 without a result", r.job_path)),
             }
@@ -388,7 +445,7 @@ impl Orchestrator {
             JobKind::NoShrink => {
                 agg.harness_errors.push(format!("run index {:?} killed its worker ({}) even without shrinking, but was not confirmed as an abort", died_at, how));
             }
-            JobKind::Main | JobKind::Determinism => {
+            JobKind::Main | JobKind::Determinism | JobKind::CrossEnv => {
                 agg.worker_restarts += 1;
                 match died_at {
                     Some(idx) => {
@@ -525,6 +582,45 @@ pub fn exec_replay(path: &Path, limit_s: f64) -> Result<Vec<String>, String> {
     }
 }
 
+/// Executes a replay file under a given env seed in a fresh process and
+/// returns its labelled outputs.
+pub fn exec_outputs(path: &Path, env_seed: u64, limit_s: f64) -> Result<BTreeMap<String, String>, String> {
+    let exe = std::env::current_exe().expect("current exe");
+    let out = Command::new(exe)
+        .arg("exec-trace")
+        .arg(path)
+        .arg(env_seed.to_string())
+        .stdin(Stdio::null())
+        .stderr(Stdio::null())
+        .env("RUST_BACKTRACE", "0")
+        .output()
+        .map_err(|e| e.to_string())?;
+    let _ = limit_s;
+    let text = String::from_utf8_lossy(&out.stdout).to_string();
+    if !out.status.success() || !text.contains("DONE") {
+        return Err("died".into());
+    }
+    let mut map = BTreeMap::new();
+    for l in text.lines() {
+        if let Some(rest) = l.strip_prefix("OUTPUT ") {
+            if let Some((label, d)) = rest.rsplit_once(' ') {
+                map.insert(label.to_string(), d.to_string());
+            }
+        }
+    }
+    Ok(map)
+}
+
+/// True if the labelled output of the replay differs between the two env seeds.
+pub fn cross_differs(path: &Path, label: &str, env_a: u64, env_b: u64) -> Result<bool, String> {
+    let a = exec_outputs(path, env_a, 60.0)?;
+    let b = exec_outputs(path, env_b, 60.0)?;
+    if label == "(set of outputs)" {
+        return Ok(a.keys().collect::<Vec<_>>() != b.keys().collect::<Vec<_>>());
+    }
+    Ok(a.get(label) != b.get(label))
+}
+
 // ---------------------------------------------------------------------------
 // The check driver.
 
@@ -580,6 +676,50 @@ pub fn run_check(cfg: CheckCfg) -> i32 {
         agg.harness_errors.push(format!("determinism self-test failed for run indices {:?}", &agg.det_mismatch[..agg.det_mismatch.len().min(10)]));
     }
 
+    // Outputs that differ between processes with different hash keys (C07).
+    let cross: Vec<(String, (u64, u64, u64))> = agg.cross_mismatch.iter().map(|(k, v)| (k.clone(), *v)).collect();
+    let mut cross_env_b: BTreeMap<String, (String, u64)> = BTreeMap::new();
+    for (label, (index, env_a, env_b)) in cross {
+        let run_seed = crate::worker::run_seed_for(seed, &engine_name, &property, index);
+        let trace = engine.generate(run_seed, index, &property, thorough);
+        let key = format!("cross-process|{}|differs-between-processes", label);
+        let count = agg.cross_mismatch_count.get(&label).copied().unwrap_or(1);
+        *agg.violation_counts.entry(key.clone()).or_insert(0) += count;
+        // Orchestrator-level shrinking: every candidate is judged by two fresh processes.
+        let scratch = orch.work.join(format!("cross-{}.json", key_slug(&key)));
+        let mut best = trace.clone();
+        let mut attempts = 0;
+        let proto = FoundViolation { key: key.clone(), detail: String::new(), index, run_seed, env_seed: env_a, trace: trace.clone(), original_trace: trace.clone(), shrink_attempts: 0 };
+        let mut progress = true;
+        while progress && attempts < 80 {
+            progress = false;
+            for cand in engine.shrink_candidates(&best, &key) {
+                if attempts >= 80 {
+                    break;
+                }
+                attempts += 1;
+                let _ = std::fs::write(&scratch, serde_json::to_string(&replay_value(&property, &engine_name, thorough, &proto, &cand)).unwrap());
+                if let Ok(true) = cross_differs(&scratch, &label, env_a, env_b) {
+                    best = cand;
+                    progress = true;
+                    break;
+                }
+            }
+        }
+        let _ = std::fs::remove_file(&scratch);
+        cross_env_b.insert(key.clone(), (label.clone(), env_b));
+        agg.violations.entry(key.clone()).or_insert(FoundViolation {
+            key,
+            detail: format!("output '{}' of run index {} differs between two worker processes that differ only in their per-process hash keys (env seeds {} and {})", label, index, env_a, env_b),
+            index,
+            run_seed,
+            env_seed: env_a,
+            trace: best,
+            original_trace: trace,
+            shrink_attempts: attempts,
+        });
+    }
+
     // Classify violations: known finding or new.
     let mut new_violations: Vec<(String, PathBuf)> = Vec::new();
     let mut known_observed: BTreeSet<String> = BTreeSet::new();
@@ -598,7 +738,23 @@ pub fn run_check(cfg: CheckCfg) -> i32 {
         let is_abort = key.starts_with("abort|");
         let mut written = false;
         for (which, trace) in [("minimised", &v.trace), ("original", &v.original_trace)] {
-            std::fs::write(&path, serde_json::to_string_pretty(&replay_value(&property, &engine_name, thorough, &v, trace)).unwrap()).expect("write replay");
+            let mut rv = replay_value(&property, &engine_name, thorough, &v, trace);
+            if let Some((label, env_b)) = cross_env_b.get(&key) {
+                rv["env_seed_b"] = json!(env_b);
+                rv["cross_label"] = json!(label);
+                std::fs::write(&path, serde_json::to_string_pretty(&rv).unwrap()).expect("write replay");
+                match cross_differs(&path, label, v.env_seed, *env_b) {
+                    Ok(true) => {
+                        written = true;
+                        break;
+                    }
+                    other => {
+                        eprintln!("rbxsim: {} trace for {} did not reproduce in fresh processes ({:?})", which, key, other);
+                        continue;
+                    }
+                }
+            }
+            std::fs::write(&path, serde_json::to_string_pretty(&rv).unwrap()).expect("write replay");
             let outcome = exec_replay(&path, hang_limit * 4.0);
             let reproduced = match &outcome {
                 Ok(keys) => keys.iter().any(|k| *k == key),
@@ -664,6 +820,7 @@ pub fn run_check(cfg: CheckCfg) -> i32 {
             "fault_kinds_fired": faults,
             "probes": probes,
             "counters": other,
+            "cross_process_pairs_compared": agg.cross_pairs,
             "determinism_pairs_checked": agg.det_pairs,
             "determinism_mismatches": agg.det_mismatch.len(),
             "worker_processes_restarted_after_abort_or_hang": agg.worker_restarts,
@@ -741,6 +898,26 @@ pub fn replay_main(path: &str) -> i32 {
     if std::fs::write(&copy, &text).is_err() {
         eprintln!("cannot write scratch copy");
         return 2;
+    }
+    if let (Some(env_b), Some(label)) = (v["env_seed_b"].as_u64(), v["cross_label"].as_str()) {
+        let env_a = v["env_seed"].as_u64().unwrap_or(0);
+        let r = cross_differs(&copy, label, env_a, env_b);
+        let _ = std::fs::remove_file(&copy);
+        return match r {
+            Ok(true) => {
+                println!("VIOLATION property={} replay={}", property, path);
+                println!("  reproduced key: {}", expect);
+                1
+            }
+            Ok(false) => {
+                println!("not reproduced: output '{}' is the same under env seeds {} and {}", label, env_a, env_b);
+                0
+            }
+            Err(e) => {
+                eprintln!("replay failed to execute: {}", e);
+                2
+            }
+        };
     }
     let outcome = exec_replay(&copy, 240.0);
     let _ = std::fs::remove_file(&copy);
